@@ -1051,6 +1051,17 @@ def _p_snoc_bytes(eng, args, p):
     return VList(t=z3.Concat(eng.list_term(args[0]), z3.Unit(args[1].t)), elem="bytes")
 
 
+def _p_cat_bytes_list(eng, args, p):
+    """cat_list(xs, ys): concatenation of two lists of octet strings."""
+    return VList(t=z3.Concat(eng.list_term(args[0]), eng.list_term(args[1])), elem="bytes")
+
+
+def _p_slice_list(eng, args, p):
+    """slice_list(xs, i, n): xs[i:n] for 0 <= i <= n <= len(xs) (z3 extract; callers state the bounds)."""
+    xs, i, n = eng.list_term(args[0]), eng.as_int(args[1]), eng.as_int(args[2])
+    return VList(t=z3.Extract(xs, i, n - i), elem="bytes")
+
+
 def _p_cat_obj(eng, args, p):
     return VList(t=z3.Concat(eng.list_term(args[0]), eng.list_term(args[1])), elem="obj")
 
@@ -1060,6 +1071,6 @@ def _p_ids_below(eng, args, p):
     return VBool(z3.ForAll([x], z3.Implies(z3.Select(args[0].t, x), z3.And(x >= 1, x < eng.as_int(args[1])))))
 
 
-SPEC_PRIMS = {"nil_bytes": _p_nil_bytes, "snoc_bytes": _p_snoc_bytes, "or_empty": _p_or_empty, "unutf8": _p_unutf8, "utf8": _p_utf8, "ids_below": _p_ids_below, "nil_obj": _p_nil_obj, "cons_obj": _p_cons_obj, "cat_obj": _p_cat_obj, "cat": _p_cat, "seq1": _p_seq1, "empty": _p_empty, "take": _p_take, "drop": _p_drop,
+SPEC_PRIMS = {"cat_list": _p_cat_bytes_list, "slice_list": _p_slice_list, "nil_bytes": _p_nil_bytes, "snoc_bytes": _p_snoc_bytes, "or_empty": _p_or_empty, "unutf8": _p_unutf8, "utf8": _p_utf8, "ids_below": _p_ids_below, "nil_obj": _p_nil_obj, "cons_obj": _p_cons_obj, "cat_obj": _p_cat_obj, "cat": _p_cat, "seq1": _p_seq1, "empty": _p_empty, "take": _p_take, "drop": _p_drop,
               "is_bytes": _p_is_bytes, "empty_set": _p_empty_set, "set_add": _p_set_add, "set_del": _p_set_del,
               "subset": _p_subset}
